@@ -505,3 +505,119 @@ func retLikeMayBeNil(ph *ssa.Phi) bool {
 	}
 	return rec(ph)
 }
+
+// checkNilTypeAndEarlyClosures (R-E, R-F): (R-E) reflect.TypeOf yields a nil Type
+// for a nil interface (a JSON null): a method invoked on its result without a nil
+// test panics. (R-F) a function literal that dereferences the pointer result of
+// a (pointer, error) call is created only behind that call's err == nil edge - a
+// goroutine started before the error check closes a nil connection later, in a
+// goroutine nobody recovers.
+func (c *Ctx) checkNilTypeAndEarlyClosures(rule string, fns []*ssa.Function) {
+	p := c.P
+	n, bad := 0, 0
+	for _, fn := range fns {
+		allInstrs(fn, func(in ssa.Instruction) {
+			ci, ok := in.(ssa.CallInstruction)
+			if !ok {
+				return
+			}
+			// R-E
+			if ci.Common().IsInvoke() {
+				if cc, _, okc := callResult1(strip(ci.Common().Value)); okc && calleeName(cc) == "reflect.TypeOf" {
+					n++
+					v := ci.Common().Value
+					nonNil := nilCheckEdges(fn, false, func(w ssa.Value) bool { return w == v || strip(w) == strip(v) })
+					argNonNil := nilCheckEdges(fn, false, func(w ssa.Value) bool { return w == cc.Call.Args[0] })
+					if (len(nonNil) == 0 || reachableWithout(fn, in, nonNil) != nil) && (len(argNonNil) == 0 || reachableWithout(fn, in, argNonNil) != nil) {
+						bad++
+						c.viol(rule, p.FnName(fn)+" calls "+ci.Common().Method.Name()+"() on reflect.TypeOf(x)", p.instrPos(in), "reflect.TypeOf returns nil for a nil interface value (a JSON null): the method call on it panics")
+					}
+				}
+				return
+			}
+		})
+		// R-F
+		for _, call := range callsIn(fn) {
+			cc, ok := call.(*ssa.Call)
+			if !ok {
+				continue
+			}
+			sig := cc.Call.Signature()
+			if sig.Results().Len() != 2 || sig.Results().At(1).Type().String() != "error" {
+				continue
+			}
+			if _, isPtr := sig.Results().At(0).Type().Underlying().(*types.Pointer); !isPtr {
+				continue
+			}
+			okE := errNilEdges(fn, cc, 1)
+			if len(okE) == 0 {
+				continue
+			}
+			// the cell the pointer result is stored in, if a closure captures it
+			var ptrVal ssa.Value
+			if cc.Referrers() != nil {
+				for _, r := range *cc.Referrers() {
+					if ex, isEx := r.(*ssa.Extract); isEx && ex.Index == 0 {
+						ptrVal = ex
+					}
+				}
+			}
+			if ptrVal == nil || ptrVal.Referrers() == nil {
+				continue
+			}
+			for _, r := range *ptrVal.Referrers() {
+				st, isSt := r.(*ssa.Store)
+				if !isSt {
+					continue
+				}
+				cell, isAl := st.Addr.(*ssa.Alloc)
+				if !isAl || cell.Referrers() == nil {
+					continue
+				}
+				for _, u := range *cell.Referrers() {
+					mc, isMC := u.(*ssa.MakeClosure)
+					if !isMC {
+						continue
+					}
+					body, _ := mc.Fn.(*ssa.Function)
+					if body == nil {
+						continue
+					}
+					// does the body dereference the captured pointer (a method call or field access through it)?
+					derefs := false
+					for i, b := range mc.Bindings {
+						if b != ssa.Value(cell) || i >= len(body.FreeVars) || body.FreeVars[i].Referrers() == nil {
+							continue
+						}
+						for _, fr := range *body.FreeVars[i].Referrers() {
+							if ld, isLd := fr.(*ssa.UnOp); isLd && ld.Referrers() != nil {
+								for _, lu := range *ld.Referrers() {
+									switch x := lu.(type) {
+									case ssa.CallInstruction:
+										if len(x.Common().Args) > 0 && x.Common().Args[0] == ssa.Value(ld) || x.Common().Value == ssa.Value(ld) {
+											derefs = true
+										}
+									case *ssa.FieldAddr:
+										derefs = true
+									}
+								}
+							}
+						}
+					}
+					if !derefs {
+						continue
+					}
+					n++
+					if path := reachableWithout(fn, mc, okE); path != nil && canFollow(cc, mc) {
+						// the body may itself test the pointer for nil
+						bad++
+						c.viol(rule, p.FnName(fn)+" creates a function literal that uses the result of "+calleeName(cc)+" before its error is tested", p.instrPos(mc), "the literal (a goroutine body, a callback) dereferences the pointer result of a call whose failure leaves it nil: it runs later and panics where nothing recovers", p.pathString(path)...)
+					}
+				}
+			}
+		}
+	}
+	if bad == 0 {
+		c.ok(rule, "reflect.TypeOf results and captured pointer results are used only where they cannot be nil", "-", fmt.Sprintf("%d site(s) examined", n))
+	}
+}
